@@ -188,3 +188,40 @@ def consts_in(term):
 
 def globals_in(term):
     return {s[1] for s in P.subterms(term) if s[0] == 'global'}
+
+
+def value_fields(term):
+    """origin fields on the *value* paths of a term: conditions of if/match and lookup keys are not descended into
+    (they decide which value is taken, they are not part of it)"""
+    out = set()
+    seen = set()
+    stack = [term]
+    while stack:
+        t = stack.pop()
+        if not isinstance(t, tuple) or not t or id(t) in seen:
+            continue
+        seen.add(id(t))
+        tag = t[0]
+        if tag == 'if':
+            stack += [t[2], t[3]]
+        elif tag == 'match':
+            stack += [a for _, a in t[2]]
+        elif tag == 'join':
+            stack += list(t[1])
+        elif tag == 'field':
+            out.add(adt_short(t[2]) + '.' + t[3])
+            stack.append(t[1])
+        elif tag == 'sel':
+            # which element is taken is part of what the value is (an id resolved to its node)
+            stack += [x for x in t[2:] if isinstance(x, tuple)]
+        elif tag in ('xf',):
+            stack.append(t[2])
+        elif tag in ('cproj', 'tproj', 'early', 'ident'):
+            stack.append(t[1])
+        elif tag == 'orelse':
+            stack += [t[1], t[2]]
+        elif tag in ('list', 'tuple'):
+            stack += list(t[1])
+        elif tag in ('call', 'ctor', 'fmt'):
+            stack += [x for x in t[2] if isinstance(x, tuple)]
+    return out
